@@ -96,6 +96,7 @@ PROPS['C02'] = m1prop('C02', 'theories/Props/C02.v', ['C02'],
 PROPS['C07'] = m1prop('C07', 'theories/Props/C07.v', ['C07', 'hang', 'panic'],
                       extra=scenario_extra(('C07-senders-vs-disconnect-deadlock', 6, 'real sockets: 4 goroutines keep sending on a charge point while the central system drops its connection 12 times; every send and the final Stop must return (F30)'),
                                             ('C07-resume-blocks-pump', 9, 'gated: a write fails and the pump sits in the application cancel callback while the connection drops and comes back; Resume must not block the pump, the endpoint keeps working'),
+                                            ('C07-wakeup-lost', 28, 'gated: two clients complete a request while the pump is busy with a third: both of their queued requests are written'),
                                             ('C07-new-session-never-served', 24, 'gated: immediate reconnect of a client whose disconnection the busy pump has not handled yet; its next request is written (F13)'),
                                             ('C07-reply-racing-timeout-stall', 22, 'gated (RequestQueue.Peek held): reply and timeout of one request handled at the same time; the dispatcher goes on with the next requests (F9)'),
                                             ('C07-simultaneous-timeouts-stall', 20, 'the requests of 8 clients time out at the same moment: all 8 are cancelled and the dispatcher still serves a request sent afterwards (F18)'),
@@ -109,7 +110,9 @@ PROPS['C11'] = Prop('C11', harness='c11', entries=['c11rt', 'm1c', 'm1c_h', 'm1c
                     trusted=M1_TRUSTED + ['real-time lane c11rt: wall-clock trace of writes and conclusions, judged by the Coq-proved timing monitor of C08'],
                     assumptions=M1_ASSUME, rule='real-time lane: server endpoints of both versions, a request outstanding when the session ends, the same id reconnects, a new request must get its own full timeout (2 runs per version, thorough 10); ' + M1_RULE,
                     design_ref='5 C11', confirm_slow=True, monitor_prefixes=['C11'], spec_entries=['c11rt'], search_n=3000, harness_timeout=1200,
-                    extra=scenario_extra(('C11-new-session-held-by-old-timeout', 24, 'gated: a client disconnects with a request outstanding and the same id reconnects before the pump (busy writing to another client) has handled the disconnection; a request to the new session is written promptly (F13)'),
+                    extra=scenario_extra(('C11-completion-of-one-client-swallows-another', 28, 'gated: while the pump is busy writing to client C the replies of A and B arrive, each with a further request queued: both follow-up requests are written'),
+                                         ('C11-session-end-touches-another-client', 27, 'requests outstanding for clients X and Y; X\'s session ends: Y\'s request keeps its timeout and is cancelled exactly once at its deadline'),
+                                         ('C11-new-session-held-by-old-timeout', 24, 'gated: a client disconnects with a request outstanding and the same id reconnects before the pump (busy writing to another client) has handled the disconnection; a request to the new session is written promptly (F13)'),
                                          ('C11-timeout-of-one-client-dispatches-for-another', 16, 'client C times out right after client A completed an exchange; the application\'s cancel handler sends a request to A: it goes to A once, nothing is written to C, nothing crashes (F1)'),
                                          ('C11-stale-pending-after-session-end', 7, 'bare ocppj.Server without an application disconnect handler: a session ends with a request outstanding, the same id reconnects, the reply to the new session\'s first request must be accepted')))
 PROPS['C16'] = m1prop('C16', 'theories/Props/C16.v', ['C16', 'panic'], spec_entries=['m1c_fresh'],
@@ -151,6 +154,7 @@ PROPS['C08'] = Prop('C08', harness='c08', entries=['c08rt', 'm1c', 'm1c_h', 'm1c
                     rule='real-time lane: 5 client + 5 server scenarios x 2 protocol versions on the real timers (timeout 160 ms, random jitter 0-24 ms): plain timeout + next request, reply late in the window, disconnect / reconnect across the deadline, answered-then-idle, staggered deadlines of two clients, session end + reconnect of the same id; the measured timed trace is the input of the Coq monitor. Virtual lane: ' + M1_RULE,
                     design_ref='5 C08', confirm_slow=True, monitor_prefixes=['C08'], spec_entries=['c08rt'], search_n=1500, harness_timeout=1500,
                     extra=scenario_extra(('C08-next-request-cancelled-by-stale-timeout', 23, 'gated: the reply to a request arrives when its timeout has just expired and the pump is busy, 8 tries; the next request gets its own full timeout (F8)', ),
+                                         ('C08-timeout-lost-when-another-session-ends', 27, 'requests outstanding for clients X and Y; X disconnects: Y\'s request still times out at its own deadline, exactly once'),
                                          ('C08-request-after-timeout-loses-its-timeout', 26, 'a request times out and the cancel handler sends the next one to the same client, 6 tries; it is written once and times out on its own (F19)'), quick=2, thorough=12))
 MANIFEST_TEXT['C08'] = dict(
     text='Coq theorems: (a) soundness of the extracted timing monitor: an accepted timed trace has no early timeout (counted from the write, for a client from the later of write and last reconnection), no timeout after a conclusion, at most one conclusion per request; (b) per-state laws of the client timer bookkeeping: dispatch re-arms a full timeout and drops a stale unread expiry, the clock fires only at the deadline, pause parks and resume re-arms; (c) class S0: a timed-out request leaves the queue and the next is written. The monitor is run on measured traces of the real timers (time.Timer / context.WithTimeout) of all four endpoint kinds on every run; expiry is also injected in the virtual-time histories shared with C01.',
